@@ -398,8 +398,8 @@ def _run_all(ctx, drv, T):
                 # dependencies): the same decidable predicates must hold for them (evaluated by the compiled model)
                 tt = drv.batch([{'op': 'tables', 'rd': f.rd, 'wd': f.wd}])[0] if drv is not None else None
                 if tt is not None:
-                    bad = [k for k in ('WF', 'WritesAll', 'Topo', 'RAcyclic', 'Frame', 'BorrowOK') if not tt.get(k)]
-                    if bad and all(T['raw'][k] for k in ('WF', 'WritesAll', 'Topo', 'RAcyclic', 'Frame', 'BorrowOK')):
+                    bad = [k for k in ('WF', 'WritesAll', 'Topo', 'RAcyclic', 'Frame', 'BorrowOK', 'LiveLoop') if not tt.get(k)]
+                    if bad and all(T['raw'][k] for k in ('WF', 'WritesAll', 'Topo', 'RAcyclic', 'Frame', 'BorrowOK', 'LiveLoop')):
                         ctx.disagree({'file': f.label}, 'traced dependencies', {'false predicates': bad, 'topoViolations': tt.get('topoViolations')},
                                      'TablesOK holds for the extracted tables but not for their restriction to the traced dependencies')
                     ctx.count('files:TablesOK(traced)' if not bad else 'files:not TablesOK(traced)')
@@ -456,7 +456,7 @@ def correspond(ctx, drivers):
         _run_all(ctx, None, static_tables_fallback())
         return
     t = T['raw']
-    for pred in ('WF', 'WritesAll', 'Topo', 'RAcyclic', 'Frame', 'BorrowOK'):
+    for pred in ('WF', 'WritesAll', 'Topo', 'RAcyclic', 'Frame', 'BorrowOK', 'LiveLoop'):
         ctx.extra.setdefault('table_predicates', {})[pred] = t[pred]
     if t['topoViolations']:
         ctx.notes.append('Topo violations in the extracted tables (writer of A reaches B which is not later in LUMP_REBUILD_ORDER): '
@@ -563,7 +563,7 @@ def replay_known(ctx, finding):
 
 LEVEL_TEXT = ("Theorems C10_flush / C10_content / C10_idem / C10_idem_bytes / C10_borrow / C10_noaccess are proved in Lean for every access sequence, for any "
               "tables satisfying decidable predicates (Topo: whatever a writer can reach comes later in LUMP_REBUILD_ORDER; "
-              "WritesAll; Frame; RAcyclic; BorrowOK); C10_gen_* re-check those predicates by `decide` on the tables regenerated "
+              "WritesAll; Frame; RAcyclic; BorrowOK; LiveLoop: save pops from the live cache while walking the order); C10_gen_* re-check those predicates by `decide` on the tables regenerated "
               "from bsp.py on every run. C10_layout proves readFile(writeFile x) = x for the header / lump table / game-lump "
               "directory byte layer. The ParsedLump/save mechanism is tied by a step-by-step differential run on the sample BSP "
               "and on synthesised BSPs of every layout.")
